@@ -132,6 +132,7 @@ type direction struct {
 }
 
 func runC17(s *kernel.Sim, kind string) {
+	var early []*jsonrpc2.Message
 	sizes := [][]int{seams.DefaultChunkSizes, {1, 1, 2, 3}, {0}, {0, 0, 0, 7, 4096}, {1, 0}}[s.Choose("chunking", 5)]
 	var a, b jsonrpc2.Codec // a = client side, b = server side
 	var closers []func()
@@ -144,6 +145,11 @@ func runC17(s *kernel.Sim, kind string) {
 		l.Sizes = sizes
 		got := make(chan jsonrpc2.Codec, 1)
 		hold := make(chan struct{})
+		// the server may speak first: messages written right after the upgrade travel behind (or in the same read
+		// as) the handshake response
+		for k := s.Choose("serverfirst", 4); k > 0 && kind != "stream"; k-- {
+			early = append(early, genMessage(s, 0, 500+len(early), false))
+		}
 		handler := http.HandlerFunc(func(w http.ResponseWriter, r *http.Request) {
 			var codec jsonrpc2.Codec
 			var err error
@@ -155,6 +161,11 @@ func runC17(s *kernel.Sim, kind string) {
 			if err != nil {
 				s.Violate("handshake", "websocket upgrade fails ("+kind+")", "upgrade: %v", err)
 				return
+			}
+			for _, m := range early {
+				if err := codec.WriteMessage(m); err != nil {
+					s.Violate("write", "WriteMessage fails on an open connection ("+kind+")", "server's first messages: %v", err)
+				}
 			}
 			got <- codec
 			<-hold // the production handler keeps the request open while it serves the connection
@@ -212,16 +223,22 @@ func runC17(s *kernel.Sim, kind string) {
 	}
 	dirs := []*direction{{name: "client->server", from: a, to: b}, {name: "server->client", from: b, to: a}}
 	var mu sync.Mutex
-	total := 0
+	total := len(early)
 	for di, d := range dirs {
 		d := d
 		d.writers = 1 + s.Choose("writers", maxWriters)
-		if di == 1 && s.Choose("bothways", 2) == 0 {
+		if di == 1 && s.Choose("bothways", 2) == 0 && len(early) == 0 {
 			d.writers = 0
 		}
 		d.sent = make([][]string, d.writers)
 		for w := 0; w < d.writers; w++ {
 			w := w
+			if di == 1 && w == 0 {
+				// what the server wrote before anybody else comes first in its own order
+				for _, m := range early {
+					d.sent[0] = append(d.sent[0], canon(m))
+				}
+			}
 			n := 1 + s.Choose("nmsg", 40/d.writers)
 			msgs := make([]*jsonrpc2.Message, n)
 			for i := range msgs {
